@@ -66,6 +66,10 @@ THEOREMS = [
     "pct_decode_encode", "addRefParams_roundtrip", "url_roundtrip", "effRef_normBR", "url_roundtrip_eff",
     "url_roundtrip_legacy_witness",
     "parent_location_roundtrip", "normBR_renorm", "parent_location_roundtrip_url", "parent_location_legacy_witness",
+    "normBR_idem", "normBR_one_none", "url_roundtrip_rev", "url_trailing_comma_witness", "url_refOk_witness",
+    "parent_location_unnamed", "parent_location_unnamed_witness",
+    "cfg_value_roundtrip", "cfg_value_witness", "cfg_file_roundtrip", "subsection_roundtrip",
+    "parent_location_roundtrip_file", "parent_location_semicolon_witness",
 ]
 
 RULE = ("inputs are drawn from alphabets that contain every delimiter/escape the code looks at "
@@ -596,6 +600,9 @@ def gen_url_loc(rng, remote_only=False):
         host = rng.choice(HOSTS) if scheme != "chroot-7" else ""
         port = rng.choice(["", "", ":22", ":8080"]) if scheme != "chroot-7" else ""
         segs = [rng.choice(SEGS) for _ in range(rng.randint(0, 3))]
+        if len(segs) >= 2 and rng.random() < 0.12:
+            # a comma in a segment that is not the last one is an ordinary character
+            segs[rng.randrange(len(segs) - 1)] += rng.choice([",x", ",k=v", ","])
         path = "".join("/" + s for s in segs)
         if rng.random() < 0.2:
             path += "/"
@@ -693,13 +700,14 @@ def b2g_flush(ctx, I, pending):
         if impl == model:
             ctx.count("b2g:agrees")
             continue
+        # (the fixes 5b3d902 / ef03ad7 are in: a difference is never tolerated; when the code behaves like
+        # the legacy model again the regression is also reported as a violation with its family)
         fam = b2g_family(I, u)
         if impl_legacy == legacy and fam is not None:
             ctx.count("b2g:legacy-behaviour:" + fam)
             ctx.violation(case, "bzr_url_to_git_url(%r) gives %s, the inverse of git_url_to_bzr_url gives %s"
                           % (u, show_b2g(impl_legacy, True), show_b2g(model)), family=fam)
-        else:
-            ctx.mismatch(case, impl, model, line="b2g " + cps(u))
+        ctx.mismatch(case, impl, model, line="b2g " + cps(u))
     del pending[:]
 
 
@@ -736,15 +744,24 @@ def is_plain_path(loc):
     return ":" not in loc
 
 
+def last_seg_has_comma(u):
+    """split_segment_parameters only looks at the last path segment (before and after
+    strip_trailing_slash); commas elsewhere in a URL are ordinary characters"""
+    return "," in u.rsplit("/", 1)[-1] or "," in u.rstrip("/").rsplit("/", 1)[-1]
+
+
 def oracle_url(ctx, I, loc, branch, ref, out):
     """bzr_url_to_git_url(git_url_to_bzr_url(loc, branch, ref)) designates the same location and ref;
     git_url_to_bzr_url of that triple gives the same URL again"""
     case = dict(kind="url", loc=js(loc), branch=js(branch), ref=jb(ref))
     base = I.urls.git_url_to_bzr_url(loc)
-    if "," in base:
-        return  # location already carries segment parameters: correspondence only
+    if last_seg_has_comma(base):
+        return  # the last path segment already carries segment parameters: correspondence only
     if ref is not None and (ref == b"refs/heads/" or ref.startswith(b"refs/heads/refs/")):
-        return  # degenerate refs (empty branch name / branch name that is itself a ref path)
+        # degenerate refs (empty branch name / branch name that is itself a ref path): excluded by `refOk`,
+        # behaviour pinned by the witness theorem url_refOk_witness and compared with the model (T2)
+        ctx.count("url:refOk-excluded")
+        return
     ok, t = call(I.urls.bzr_url_to_git_url, out)
     if not ok:
         ctx.violation(case, "bzr_url_to_git_url(%r) raises %s" % (out, t))
@@ -803,7 +820,11 @@ def sec_urls(ctx, I):
                         ("https://h/r", "foo", None), ("git://h/r", None, b"refs/heads/foo"),
                         ("ssh://u@h:22/p", None, b"HEAD"), ("u@h:p q", "", None), ("h:/abs", "x", b"HEAD"),
                         ("https://h/r/", "é,=%", None), ("/srv/r", "x", None), ("https://h/r,a=b", "x", None),
-                        ("https://h/r", None, b"refs/heads/\xff"), ("https://h/r", None, b"refs/x/\xff%")]:
+                        ("https://h/r", None, b"refs/heads/\xff"), ("https://h/r", None, b"refs/x/\xff%"),
+                        # the inputs of url_refOk_witness / url_trailing_comma_witness / the weakened comma hypothesis
+                        ("https://h/r", None, b"refs/heads/refs/x"), ("https://h/r", None, b"refs/heads/"),
+                        ("https://h/r,a=b", "x", None), ("https://h/a,b/r", "x,y", None),
+                        ("https://h/a,b/r/", None, b"refs/tags/v,1")]:
         one(loc, br, rf)
     for _ in range(ctx.pick(3000, 40000)):
         loc, cls = gen_url_loc(ctx.rng)
@@ -838,9 +859,8 @@ def sec_urls(ctx, I):
         if impl == model:
             continue
         if impl == legacy and is_plain_path(loc):
-            ctx.count("g2b:legacy-behaviour:non-url-location-drops-ref")  # reported by the oracle
-        else:
-            ctx.mismatch(case, impl, model, line="g2b " + a)
+            ctx.count("g2b:legacy-behaviour:non-url-location-drops-ref")  # also reported by the oracle
+        ctx.mismatch(case, impl, model, line="g2b " + a)
     # helper functions of the model, directly
     B = Batch(ctx)
     for _ in range(ctx.pick(800, 8000)):
@@ -859,30 +879,109 @@ def sec_urls(ctx, I):
 
 
 # --------------------------------------------------------------------------
+# 6c. dulwich ConfigFile: value format / parse (what lies between set_parent and get_parent)
+
+CFGV_ALPHA = [b" ", b"\t", b"#", b";", b'"', b"\\", b"\n", b"\r", b"\x0b", b"\x0c", b"a", b"n", b"t", b"b", b"r", b"=",
+              b"\x08", b"\xff", b"refs/heads/", b"]", b"["]
+
+
+def sec_cfg(ctx, I):
+    """T2 of the model's cfgFormat / cfgParse / cfgReread / cfgValueSafe / subsecEscape against dulwich's
+    _format_string / _parse_string / a real write_to_file + from_file / _escape_subsection.  (No oracle here: a
+    value dulwich does not read back is dulwich's business until a parent location is lost through it — that is
+    what the parent stream's oracle reports.)"""
+    from io import BytesIO
+    from dulwich.config import ConfigFile, _format_string, _parse_string, _escape_subsection, _unescape_subsection
+    B = Batch(ctx)
+    safe_lines, safe_meta = [], []
+
+    def one(v):
+        B.add(dict(kind="cfgfmt", b=jb(v)), "cfgfmt " + hx(v), hx(_format_string(v)))
+        ok, r = call(_parse_string, v)
+        B.add(dict(kind="cfgparse", b=jb(v)), "cfgparse " + hx(v), hx(r) if ok else r)
+        cf = ConfigFile()
+        cf.set((b"branch", b"x"), b"merge", v)
+        f = BytesIO()
+        cf.write_to_file(f)
+        ok, r = call(lambda: ConfigFile.from_file(BytesIO(f.getvalue())).get((b"branch", b"x"), b"merge"))
+        B.add(dict(kind="cfgreread", b=jb(v)), "cfgreread " + hx(v), hx(r) if ok else r)
+        safe_lines.append("cfgsafe " + hx(v))
+        safe_meta.append((v, ok and r == v))
+        if b"\n" not in v and b"\0" not in v:
+            B.add(dict(kind="subesc", b=jb(v)), "subesc " + hx(v), hx(_escape_subsection(v)))
+        B.add(dict(kind="subunesc", b=jb(v)), "subunesc " + hx(v), hx(_unescape_subsection(v)))
+        ctx.case(["cfgv", v.hex()], nontrivial=any(c in v for c in b' \t#;"\\\n\r\x0b\x0c'))
+        ctx.count("cfgv:" + ("reread-same" if ok and r == v else "reread-differs"))
+
+    for v in (b"", b"a;b", b"a#b", b" a", b"a ", b"a\rb", b"\x0ca", b'a"b', b"a\\", b"a b", b"refs/heads/a;b#c", b'"', b"\\"):
+        one(v)
+    for _ in range(ctx.pick(1500, 20000)):
+        one(gen_bytes(ctx.rng, CFGV_ALPHA, 7))
+    B.flush()
+    # the hypothesis of cfg_value_roundtrip on the real code: every value the model calls safe is read back
+    # unchanged by dulwich (and how often an unsafe one is, too: the predicate is meant to be exact)
+    for (v, same), rep in zip(safe_meta, ctx.model(safe_lines)):
+        ctx.traces += 1
+        if rep == "T" and not same:
+            ctx.mismatch(dict(kind="cfgsafe", b=jb(v)), "dulwich does not read %r back" % (v,), "cfgValueSafe = true",
+                         line="cfgsafe " + hx(v))
+        elif rep == "F" and same:
+            ctx.count("cfgv:unsafe-but-read-back")
+        ctx.count("cfgv:safe" if rep == "T" else "cfgv:unsafe")
+
+
+# --------------------------------------------------------------------------
 # 7. parent location
 
 _PARENT = {}
 
 
-def parent_env():
-    """one scratch git tree with a few branches; config reset before every case"""
-    if _PARENT:
-        return _PARENT
+# branch names whose section header `[branch "<name>"]` needs the quoting / escaping of dulwich's ConfigFile
+PARENT_NAMES = ["master", "feat/x", "origin", "é-b", "a;b", "a#b", 'a"b', "x]y"]
+UNNAMED = ""            # the branch of a detached HEAD: no name, ref HEAD
+QUOTE_COMMENT_NAME = 'q"#x'   # only used by one fixed case: its section header cannot be read back by dulwich
+
+
+def parent_env(name="master"):
+    """scratch git trees: one with a few named branches, one with a detached HEAD (its branch has no
+    name); the config file is reset before every case"""
+    key = "detached" if name == UNNAMED else "named"
+    if key in _PARENT:
+        return _PARENT[key]
     wt = env.make_tree("git")
     wt.commit("x")
     g = wt.branch.repository._git
     head = g.refs[b"refs/heads/master"]
-    names = ["master", "feat/x", "origin", "é-b"]
-    for n in names[1:]:
-        g.refs[b"refs/heads/" + n.encode("utf-8")] = head
+    if key == "named":
+        for n in PARENT_NAMES[1:] + [QUOTE_COMMENT_NAME]:
+            g.refs[b"refs/heads/" + n.encode("utf-8")] = head
+    else:
+        with open(os.path.join(wt.basedir, ".git", "HEAD"), "wb") as f:
+            f.write(head + b"\n")
+        from breezy.controldir import ControlDir
+        br = ControlDir.open(wt.basedir).open_branch(name=UNNAMED)
+        if br.name != "" or br.ref != b"HEAD":
+            raise env.InfraError("C36: cannot build an unnamed git branch (got name %r ref %r)" % (br.name, br.ref))
     cfgpath = os.path.join(wt.basedir, ".git", "config")
-    _PARENT.update(wt=wt, names=names, cfgpath=cfgpath, initial=open(cfgpath, "rb").read())
-    return _PARENT
+    _PARENT[key] = dict(wt=wt, names=PARENT_NAMES, cfgpath=cfgpath, initial=open(cfgpath, "rb").read(),
+                        basedir=wt.basedir)
+    return _PARENT[key]
+
+
+def open_parent_branch(P, name):
+    from breezy.controldir import ControlDir
+    return ControlDir.open(P["basedir"]).open_branch(name=name)
+
+
+UNREADABLE = [(b"E", b"Value", b"config-unreadable", b"")]
 
 
 def read_cfg(path):
     from dulwich.config import ConfigFile
-    cf = ConfigFile.from_path(path)
+    try:
+        cf = ConfigFile.from_path(path)
+    except ValueError:
+        return list(UNREADABLE)
     out = []
     for sec in cf.sections():
         if sec[0] in (b"remote", b"branch") and len(sec) == 2:
@@ -905,7 +1004,7 @@ def canon_cfg_reply(rep):
 def run_parent_case(name, preremote, locs, preseed=()):
     """set_parent(loc) for each loc in turn on branch `name`; returns observations
     (with no `locs`: one observation of the getter on the pre-seeded config)"""
-    P = parent_env()
+    P = parent_env(name)
     from dulwich.config import ConfigFile
     with open(P["cfgpath"], "wb") as f:
         f.write(P["initial"])
@@ -919,16 +1018,22 @@ def run_parent_case(name, preremote, locs, preseed=()):
     obs = []
     if not locs:
         after = read_cfg(P["cfgpath"])
-        br = P["wt"].controldir.open_branch(name=name)
+        br = open_parent_branch(P, name)
         ok2, got = call(br._get_parent_location)
         ok3, full = call(br.get_parent)
         return [dict(before=after, set="ok", after=after, get=got, get_ok=ok2, full=full, full_ok=ok3)]
     for loc in locs:
         before = read_cfg(P["cfgpath"])
-        br = P["wt"].controldir.open_branch(name=name)
+        br = open_parent_branch(P, name)
         ok, r = call(br.set_parent, loc)
         after = read_cfg(P["cfgpath"])
-        br = P["wt"].controldir.open_branch(name=name)
+        if after == UNREADABLE:
+            obs.append(dict(before=before, set=("ok" if ok else r), after=after, get="E:Value", get_ok=False,
+                            full="E:Value", full_ok=False))
+            with open(P["cfgpath"], "wb") as f:      # the next location of this run starts from a readable file
+                f.write(P["initial"])
+            continue
+        br = open_parent_branch(P, name)
         ok2, got = call(br._get_parent_location)
         ok3, full = call(br.get_parent)
         obs.append(dict(before=before, set=("ok" if ok else r), after=after,
@@ -968,6 +1073,53 @@ def parent_family(I, name, remote, loc, obs):
     return None
 
 
+def dulwich_reread(v):
+    """what ConfigFile.from_file reads for a value ConfigFile.write_to_file wrote"""
+    from dulwich.config import _format_string, _parse_string
+    try:
+        return _parse_string(b" " + _format_string(v) + b"\n")
+    except ValueError:
+        return None
+
+
+def header_quote_comment(nm):
+    """a `#` or `;` after an odd number of `"` in a section name: dulwich's _strip_comments (which does not know
+    about `\\"`) cuts the header line `[branch "<name>"]` there and the file can no longer be parsed"""
+    q = 0
+    for c in nm:
+        if c == 0x22:
+            q += 1
+        elif c in (0x23, 0x3b) and q % 2 == 1:
+            return True
+    return False
+
+
+def parent_new_family(I, name, loc, o, model_setp):
+    """classify a failed parent round trip that is not one of the fixed (legacy) families, from the concrete input:
+    the branch name, the URL and the values set_parent has to store for it (the model's `setp` reply)"""
+    designates = None
+    try:
+        _, b, r = I.urls.bzr_url_to_git_url(loc)
+        designates = eff(I, b, r.encode("utf-8") if isinstance(r, str) else r)
+    except Exception:  # noqa: BLE001
+        pass
+    if name == UNNAMED and designates not in (None, b"HEAD"):
+        return "parent-unnamed-branch-drops-ref"
+    if o["after"] == UNREADABLE and header_quote_comment(name.encode("utf-8")):
+        return "parent-config-section-quote-comment"
+    if model_setp and not model_setp.startswith("E:") and model_setp != "-":
+        for e in model_setp.split(";"):
+            v = unhx(e.split("=")[1])
+            back = dulwich_reread(v)
+            if back != v:
+                if b"\r" in v:
+                    return "parent-config-value-cr"
+                if b";" in v:
+                    return "parent-config-value-semicolon"
+                return "parent-config-value-stripped"
+    return None
+
+
 def degenerate_ref(I, loc):
     """the URL designates `refs/heads/` (an empty branch name spelled as a ref): excluded"""
     try:
@@ -979,7 +1131,7 @@ def degenerate_ref(I, loc):
 
 def comma_free_base(I, loc):
     ok, r = call(lambda: I.urls.git_url_to_bzr_url(I.urlutils.split_segment_parameters(loc)[0]))
-    return ok and "," not in r
+    return ok and not last_seg_has_comma(r)
 
 
 def equivalent_urls(I, a, b):
@@ -995,6 +1147,18 @@ def equivalent_urls(I, a, b):
         return ua == ub and eff(I, ba, fix(ra)) == eff(I, bb, fix(rb))
     except Exception:  # noqa: BLE001
         return False
+
+
+CFG_TOK = [" ", "#", '"', "\\", "=", "[", "]", "\t"]
+
+
+def gen_cfg_name(rng):
+    """a branch name / ref tail with the characters dulwich's ConfigFile treats specially: blanks at either end or
+    inside, `#`, `"`, `\\` (and, rarely, `;` — the family dulwich does not write back correctly)"""
+    toks = [rng.choice(NAME_TOK_NOWS + CFG_TOK + CFG_TOK) for _ in range(rng.randint(1, 4))]
+    if rng.random() < 0.05:
+        toks.insert(rng.randint(0, len(toks)), ";")
+    return "".join(toks) or "b"
 
 
 def sec_parent(ctx, I):
@@ -1020,9 +1184,22 @@ def sec_parent(ctx, I):
     mk("origin", None, [("https://h/r", "foo", None)])
     mk("feat/x", b"upstream", [("git://h/r", "foo", None), ("git://h/r", None, None)])
     mk("master", None, ["https://h/r,branch"])
-    for _ in range(ctx.pick(160, 1500)):
-        name = ctx.rng.choice(P["names"])
-        pre = ctx.rng.choice([None, None, None, b"upstream", b"origin", b"up stream"])
+    # what dulwich's ConfigFile has to quote / escape on the way to the file and back
+    mk("master", None, [("https://h/r", "a b", None), ("https://h/r", " lead", None), ("https://h/r", "trail ", None)])
+    mk("master", None, [("https://h/r", "a#b", None), ("https://h/r", 'q"r\\s', None), ("https://h/a,b/r", "x", None)])
+    mk('a"b', None, [("https://h/r", "foo", None)])
+    mk("a#b", b"up;stream", [("https://h/r", None, b"refs/tags/v1")])
+    mk("x]y", None, [("git://h/r", "foo", None)])
+    # the families the round trip does not hold for (each reported with its own family)
+    mk(UNNAMED, None, [("https://h/r", "foo", None)])                     # parent_location_unnamed_witness
+    mk(UNNAMED, None, [("https://h/r", None, None)])                      # nothing to lose: holds
+    mk("master", None, [("https://h/r", "a;b", None)])                    # parent_location_semicolon_witness
+    mk(QUOTE_COMMENT_NAME, None, [("https://h/r", "foo", None)])          # section header dulwich cannot re-read
+    for _ in range(ctx.pick(220, 1800)):
+        name = ctx.rng.choice(P["names"] + ([UNNAMED] if ctx.rng.random() < 0.4 else []))
+        pre = ctx.rng.choice([None, None, None, b"upstream", b"origin", b"up stream", b"up#s", b'u"p'])
+        if name == UNNAMED:
+            pre = None      # `[branch ""]` is not a section git or dulwich can write
         specs = []
         for _ in range(ctx.rng.choice([1, 1, 2])):
             if ctx.rng.random() < 0.12:
@@ -1035,9 +1212,11 @@ def sec_parent(ctx, I):
                 if r < 0.15:
                     specs.append((u, None, None))
                 elif r < 0.6:
-                    specs.append((u, gen_branch(ctx.rng, ws=False), None))
+                    specs.append((u, gen_cfg_name(ctx.rng), None))
                 else:
                     rf = gen_git_ref(ctx.rng, ws=False)
+                    if ctx.rng.random() < 0.3:
+                        rf = rf + gen_cfg_name(ctx.rng).encode("utf-8")
                     specs.append((u, None, rf))
         mk(name, pre, specs)
 
@@ -1048,43 +1227,58 @@ def sec_parent(ctx, I):
         for loc, is_canon, o in zip(locs, canon, obs):
             case = dict(kind="parent", name=js(name), preremote=jb(pre), locs=[js(x) for x in locs])
             cfg = cfg_str(o["before"])
+            # `setpf`: set_parent followed by write_to_file + from_file, which is what `after` was read through
             lines += ["setp %s %s %s" % (cfg, cps(name), cps(loc)),
+                      "setpf %s %s %s" % (cfg, cps(name), cps(loc)),
                       "getp %s %s" % (cfg_str(o["after"]), cps(name)),
                       "getpL %s %s" % (cfg_str(o["after"]), cps(name))]
             meta.append((case, name, remote, loc, is_canon, o))
             ctx.case(["parent", js(name), jb(pre), js(loc)], nontrivial=("," in loc) or pre is not None)
             ctx.count("parent:set:" + o["set"])
-            ctx.count("parent:branch-name:" + ("eq-remote" if name.encode("utf-8") == remote else "other"))
+            ctx.count("parent:branch-name:" + ("unnamed" if name == UNNAMED else
+                                               "eq-remote" if name.encode("utf-8") == remote else "other"))
     rep = ctx.model(lines)
     for i, (case, name, remote, loc, is_canon, o) in enumerate(meta):
-        m_set, m_get, m_getL = canon_cfg_reply(rep[3 * i]), rep[3 * i + 1], rep[3 * i + 2]
+        m_setp, m_set, m_get, m_getL = rep[4 * i], canon_cfg_reply(rep[4 * i + 1]), rep[4 * i + 2], rep[4 * i + 3]
         ctx.traces += 1
+        unreadable = o["after"] == UNREADABLE
         impl_set = cfg_str(o["after"]) if o["set"] == "ok" else o["set"]
         impl_get = ocps(o["get"]) if o["get_ok"] else o["get"]
-        fam = parent_family(I, name, remote, loc, o)
-        # --- oracle: a canonical URL is read back unchanged
+        fam = parent_family(I, name, remote, loc, o) if not unreadable else None
+        if fam is None:
+            fam = parent_new_family(I, name, loc, o, m_setp)
+        if fam is not None:
+            ctx.count("parent:family:" + fam)
+        if m_setp != rep[4 * i + 1] and not m_setp.startswith("E:"):
+            ctx.count("parent:stored-value-changed-by-reread")
+        # --- oracle: a canonical URL is read back as an equivalent URL
         if is_canon and o["set"] == "ok" and comma_free_base(I, loc):
             if degenerate_ref(I, loc):
                 ctx.count("parent:degenerate-ref")
             elif not o["full_ok"] or not equivalent_urls(I, o["full"], loc):
                 ctx.violation(case, "branch %r: set_parent(%r) then get_parent() = %r" % (name, loc, o["full"]),
                               family=fam)
-        # --- T2
+        # --- T2 (no difference is tolerated; behaviour of the legacy models is also reported with its family)
+        if unreadable:
+            # the section header dulwich wrote cannot be parsed again (not modelled): oracle only, and only for
+            # the one family known to do that
+            if not header_quote_comment(name.encode("utf-8")) and not header_quote_comment(remote):
+                ctx.mismatch(case, "config unreadable after set_parent", m_set, line=lines[4 * i + 1])
+            elif not is_canon:
+                ctx.violation(case, "branch %r: set_parent(%r) leaves a configuration file that cannot be read"
+                              % (name, loc), family=fam)
+            continue
         if impl_set != m_set:
             if fam in ("url-ref-param-dropped", "parent-merge-escaped"):
                 ctx.count("parent:set:legacy:" + fam)
-                if not is_canon:
-                    ctx.violation(case, "set_parent(%r) stores %s, expected %s" % (loc, impl_set, m_set), family=fam)
-            else:
-                ctx.mismatch(case, impl_set, m_set, line=lines[3 * i])
+                ctx.violation(case, "set_parent(%r) stores %s, expected %s" % (loc, impl_set, m_set), family=fam)
+            ctx.mismatch(case, impl_set, m_set, line=lines[4 * i + 1])
         if impl_get != m_get:
             if impl_get == m_getL and name.encode("utf-8") != remote:
                 ctx.count("parent:get:legacy")
-                if not is_canon:
-                    ctx.violation(case, "_get_parent_location() = %s, expected %s (merge ref read from "
-                                  "[branch \"%s\"])" % (impl_get, m_get, remote.decode()), family="parent-merge-section")
-            else:
-                ctx.mismatch(case, impl_get, m_get, line=lines[3 * i + 1])
+                ctx.violation(case, "_get_parent_location() = %s, expected %s (merge ref read from "
+                              "[branch \"%s\"])" % (impl_get, m_get, remote.decode()), family="parent-merge-section")
+            ctx.mismatch(case, impl_get, m_get, line=lines[4 * i + 2])
     # --- getter alone, on hand-written configs (entries set_parent never leaves behind)
     go_lines, go_meta = [], []
     for _ in range(ctx.pick(60, 600)):
@@ -1122,12 +1316,11 @@ def sec_parent(ctx, I):
                                                                uncps(impl_get), m_get if m_get.startswith(("E:", "~"))
                                                                else uncps(m_get), remote.decode(), name),
                               family="parent-merge-section")
-            else:
-                ctx.mismatch(case, impl_get, m_get, line=go_lines[2 * i])
+            ctx.mismatch(case, impl_get, m_get, line=go_lines[2 * i])
     # --- oracle only: parents given as file: URLs (relative_url is not the identity)
     other = env.fresh_dir("parent")
-    for name in ("master", "feat/x"):
-        for br_, rf in ((None, None), ("foo", None), (None, b"refs/tags/v1")):
+    for name in ("master", "feat/x", "é-b", 'a"b'):
+        for br_, rf in ((None, None), ("foo", None), (None, b"refs/tags/v1"), ("a b#c", None), (None, "refs/heads/é".encode("utf-8"))):
             loc = I.urls.git_url_to_bzr_url  # noqa: F841  (file: URLs are not git URLs; build by hand)
             u = I.urlutils.local_path_to_url(other)
             params = {}
@@ -1182,6 +1375,7 @@ def run(ctx):
     sec_revid(ctx, I)
     sec_refs(ctx, I)
     sec_urls(ctx, I)
+    sec_cfg(ctx, I)
     sec_parent(ctx, I)
 
 
